@@ -166,8 +166,7 @@ func (ck *checker) routes(e *jpref.Eq, elem any, class string, cs map[string]any
 	// (a text that does not parse at all is C14's business)
 	if hasIntegralFloat(e) {
 		c.Cover("parsed-text-skipped:integral-float-constant")
-	} else if s2, err := jp.NewScript(script.String()); err == nil && s2.String() == script.String() {
-		// (a text that does not print the same after parsing is a round-trip defect, C14)
+	} else if s2, err := jp.NewScript(script.String()); err == nil {
 		c.Cover("route:parsed-text")
 		run("NewScript(String()).Match", func() bool { return s2.Match(elem) })
 	}
